@@ -16,6 +16,14 @@
 (* AccessorsAgree: every accessor describes Logical(c).  The contiguous view  *)
 (* is either absent or exactly Logical(c) - a reversed view is contiguous in  *)
 (* MEMORY but not in logical order, so it must not be offered.                *)
+(* A representation is also a place results are WRITTEN to: a caller may hand  *)
+(* any ring (wrapped or not) or any strided / reversed view to a `*_to` twin   *)
+(* as the uninitialised output buffer.  WriteCell(r, i) is the memory cell     *)
+(* logical slot i must go to; WriteMapOK says the map is injective, stays      *)
+(* inside the storage, and - read back through Logical - returns what was      *)
+(* written, so that "every slot written exactly once, nothing outside" is a    *)
+(* statement about cells.  The harness builds the real buffer for every        *)
+(* ring / strided parameter and checks the cells.                              *)
 (* BackendIndependent (the function-level half of C07) is bound by the        *)
 (* harness: every function family gives bit-identical results on every        *)
 (* representation of the same Logical(c).                                     *)
@@ -54,6 +62,24 @@ ASlice(r, a, b) == [i \in 1..(b - a) |-> Logical(r)[a + i]]             \* [a, b
 \* the contiguous view: <<>> = not offered, <<s>> = offered as s   (REQUIRED behaviour)
 ATryAsSlice(r) == IF ContiguousInOrder(r) THEN <<Logical(r)>> ELSE <<>>
 
+(* ---- the representation as an output buffer ------------------------------------- *)
+
+\* 1-based cell of the underlying storage that logical slot i (0-based) lives in
+WriteCell(r, i) ==
+    CASE r.rep = "vec"     -> i + 1
+      [] r.rep = "ring"    -> ((r.head + i) % r.cap) + 1
+      [] r.rep = "strided" -> r.off + i * r.step + 1
+Storage(r) == CASE r.rep = "vec" -> Len(r.buf) [] r.rep = "ring" -> r.cap [] r.rep = "strided" -> Len(r.base)
+\* the storage after writing payload p (a sequence of ALen(r) values) slot by slot
+Written(r, p) ==
+    LET mem0 == CASE r.rep = "vec" -> r.buf [] r.rep = "ring" -> r.buf [] r.rep = "strided" -> r.base
+        mem1 == [cell \in 1..Storage(r) |->
+                    IF \E i \in 0..(ALen(r) - 1) : WriteCell(r, i) = cell
+                    THEN p[(CHOOSE i \in 0..(ALen(r) - 1) : WriteCell(r, i) = cell) + 1]
+                    ELSE mem0[cell]]
+    IN  CASE r.rep = "vec" -> [r EXCEPT !.buf = mem1] [] r.rep = "ring" -> [r EXCEPT !.buf = mem1]
+          [] r.rep = "strided" -> [r EXCEPT !.base = mem1]
+
 (* ---- enumeration ------------------------------------------------------------------- *)
 
 Rings == {[rep |-> "ring", cap |-> cap, head |-> h, len |-> n,
@@ -86,6 +112,19 @@ AccessorsAgree ==
     /\ \A i \in 1..n : AIterBack(c)[i] = L[n - i + 1]
     /\ \A a \in 0..n, b \in 0..n : a <= b => ASlice(c, a, b) = SubSeq(L, a + 1, b)
     /\ ATryAsSlice(c) \in {<<>>, <<L>>}
+
+\* C07 / C10: as an output buffer, slot i goes to one cell of the storage, different slots to
+\* different cells, and reading the buffer back yields what was written; no other cell changes
+WriteMapOK ==
+    c.rep \in {"vec", "ring", "strided"} =>
+        LET n == ALen(c)  p == [i \in 1..n |-> 100 + i]  w == Written(c, p) IN
+        /\ \A i \in 0..(n - 1) : WriteCell(c, i) \in 1..Storage(c)
+        /\ \A i, j \in 0..(n - 1) : i # j => WriteCell(c, i) # WriteCell(c, j)
+        /\ Logical(w) = p
+        /\ \A cell \in 1..Storage(c) :
+              (\A i \in 0..(n - 1) : WriteCell(c, i) # cell) =>
+                 (CASE c.rep = "vec" -> w.buf[cell] = c.buf[cell] [] c.rep = "ring" -> w.buf[cell] = c.buf[cell]
+                    [] c.rep = "strided" -> w.base[cell] = c.base[cell])
 
 \* the ring buffer mapping is a bijection onto the live cells
 RingLive == c.rep = "ring" => \A i, j \in 1..c.len : i # j => ((c.head + i - 1) % c.cap) # ((c.head + j - 1) % c.cap)
